@@ -160,7 +160,10 @@ class Result:
 
         ret = {}
         for branch in self.branches:
-            ret[branch.outcome] = int(branch.frequency * shots)
+            # NOTE: Several branches may share the same outcome.
+            ret[branch.outcome] = ret.get(branch.outcome, 0) + int(
+                branch.frequency * shots
+            )
 
         return ret
 
